@@ -917,14 +917,31 @@ def inherited_elements_marked_unconditionally(repo, rep):
     if f is None:
         raise AnalysisError('ResolverMixin._resolve_objects vanished')
     r13.functions.add(f.fq)
+    from ..inline import Flat
+    f = Flat(f)
     parent = {}
     for n in ast.walk(f.node):
         for c in ast.iter_child_nodes(n):
             parent[c] = n
+    # the copies of superclass elements, and the loop variables over their
+    # qualifiers
+    copies = {n.targets[0].id for n in walk_no_nested(f.node)
+              if isinstance(n, ast.Assign) and len(n.targets) == 1 and
+              isinstance(n.targets[0], ast.Name) and
+              isinstance(n.value, ast.Call) and
+              isinstance(n.value.func, ast.Attribute) and
+              n.value.func.attr in ('copy',) and not n.value.args}
+    qvars = {n.target.id for n in walk_no_nested(f.node)
+             if isinstance(n, ast.For) and isinstance(n.target, ast.Name) and
+             any(isinstance(x, ast.Attribute) and x.attr == 'qualifiers' and
+                 isinstance(x.value, ast.Name) and x.value.id in copies
+                 for x in ast.walk(n.iter))}
     marks = [n for n in walk_no_nested(f.node)
              if isinstance(n, ast.Assign) and len(n.targets) == 1 and
              isinstance(n.targets[0], ast.Attribute) and
              n.targets[0].attr == 'propagated' and
+             isinstance(n.targets[0].value, ast.Name) and
+             n.targets[0].value.id in copies | qvars and
              isinstance(n.value, ast.Constant) and n.value.value is True]
     if len(marks) < 2:
         raise AnalysisError('_resolve_objects: the propagated markings of '
